@@ -2255,7 +2255,24 @@ func init() {
 			return
 		}
 		if !hasPlusV(o.c.R) && o.e.Error() != want {
-			o.fail("Error() of Join is not the branch messages joined by newlines", "", firstDiff(o.e.Error(), want))
+			// recorded finding join-blank-line-branch: the library Join (not the standard library's) whose direct
+			// branches are leaves, one of them with an empty text, a text ending in a newline or a blank line inside
+			m := ""
+			if o.c.R.Op == "join" {
+				blank, leaves := false, true
+				for _, k := range o.c.R.Kids {
+					if k.Op != "new" && k.Op != "stdnew" && k.Op != "nil" {
+						leaves = false
+					}
+					if t, isNil := specText(k); !isNil && (t == "" || strings.HasSuffix(t, "\n") || strings.HasPrefix(t, "\n") || strings.Contains(t, "\n\n")) {
+						blank = true
+					}
+				}
+				if blank && leaves {
+					m = "join-blank-line-branch"
+				}
+			}
+			o.fail("Error() of Join is not the branch messages joined by newlines", m, firstDiff(o.e.Error(), want))
 		}
 	}
 }
